@@ -94,7 +94,7 @@ static SU_vector naive(int op, SU_vector& a, SU_vector& b, const Env& e) {
 enum Target { T_EMPTY, T_OWN_SAME, T_OWN_OTHER, T_EXT_SAME, T_EXT_OTHER, N_TARGETS };
 enum Alias { P_NONE, P_V_IS_A, P_V_IS_B, P_V_SHARES_A, P_V_SHARES_B, P_A_IS_B, P_ALL_ONE, P_V_SHARES_A_OFFSETLESS, N_ALIAS };
 static const char* TNAME[] = {"empty", "own-same-dim", "own-other-dim", "external-same-dim", "external-other-dim"};
-static const char* PNAME[] = {"no-alias", "v-is-a", "v-is-b", "v-and-a-on-one-buffer", "v-and-b-on-one-buffer", "a-is-b", "all-one-object", "-"};
+static const char* PNAME[] = {"no-alias", "v-is-a", "v-is-b", "v-and-a-on-one-buffer", "v-and-b-on-one-buffer", "a-is-b", "all-one-object", "v-and-a-on-one-buffer-with-different-dimensions"};
 
 alignas(64) static double g_pool[6][64];
 // buffer with ideal (or deliberately non-ideal) alignment for dimension d
@@ -123,7 +123,8 @@ static void run_case(const CaseDesc& c) {
   env.evbuf = evb.data();
   // aliasing decides which objects exist
   bool v_is_a = c.alias == P_V_IS_A || c.alias == P_ALL_ONE, v_is_b = c.alias == P_V_IS_B || c.alias == P_ALL_ONE, a_is_b = c.alias == P_A_IS_B || c.alias == P_ALL_ONE;
-  bool shares_a = c.alias == P_V_SHARES_A, shares_b = c.alias == P_V_SHARES_B;
+  bool shares_od = c.alias == P_V_SHARES_A_OFFSETLESS;   // target and first operand are views of one user buffer but of different dimension
+  bool shares_a = c.alias == P_V_SHARES_A || shares_od, shares_b = c.alias == P_V_SHARES_B;
   if (v_is_a && b_is_operator && !v_is_b) {}  // v is the state
   if (c.alias == P_ALL_ONE || a_is_b) { if (b_is_operator) av = bv; else bv = av; }
   // storage
@@ -148,6 +149,7 @@ static void run_case(const CaseDesc& c) {
   std::vector<double> vbefore;
   if (c.kind != K_CONSTRUCT) {
     if (v_is_a) vp = A.get(); else if (v_is_b) vp = bp;
+    else if (shares_od) { V.reset(new SU_vector(dother, vbuf)); vp = V.get(); }
     else if (shares_a || shares_b) { V.reset(new SU_vector(d, vbuf)); vp = V.get(); }
     else switch (c.target) {
       case T_EMPTY: V.reset(new SU_vector()); break;
@@ -250,7 +252,8 @@ int main(int argc, char** argv) {
     if (!g_table[kind][op][fl]) { violation("harness:shape-not-instantiated", J().i("kind", kind).i("op", op).i("flags", fl).done()); continue; }
     shapes++;
     bool unary = op_unary(op), rv = op_rv_a(op) || op_rv_b(op);
-    for (int alias = 0; alias <= P_ALL_ONE; alias++) {
+    for (int alias = 0; alias <= P_V_SHARES_A_OFFSETLESS; alias++) {
+      if (alias == P_V_SHARES_A_OFFSETLESS && (kind == K_CONSTRUCT || rv)) continue;
       if (unary && (alias == P_V_IS_B || alias == P_V_SHARES_B || alias == P_A_IS_B || alias == P_ALL_ONE)) continue;
       if ((alias == P_A_IS_B || alias == P_ALL_ONE) && rv) continue;       // the same object is not moved from and read in one expression
       if (kind == K_CONSTRUCT && !(alias == P_NONE || alias == P_A_IS_B)) continue;
@@ -259,6 +262,7 @@ int main(int argc, char** argv) {
         bool v_is_operand = alias == P_V_IS_A || alias == P_V_IS_B || alias == P_ALL_ONE;
         if (v_is_operand && !(target == T_OWN_SAME || target == T_EXT_SAME)) continue;
         if ((alias == P_V_SHARES_A || alias == P_V_SHARES_B) && target != T_EXT_SAME) continue;
+        if (alias == P_V_SHARES_A_OFFSETLESS && target != T_EXT_OTHER) continue;
         for (int d : dims) for (int ideal = 0; ideal < 2; ideal++) for (int ps = 0; ps < 4; ps++) {
           bool uses_ext = target == T_EXT_SAME || target == T_EXT_OTHER;
           if (!uses_ext && ideal == 0) continue;     // alignment of external buffers is only an axis when there is one
